@@ -1,3 +1,4 @@
+import AriesVerif.Base.Util
 /-! # C13 — sequential specifications and the linearization witness validator.
 
 A history is a list of completed operations with logical invoke / return times; it is linearizable when some order of
@@ -60,6 +61,10 @@ def kvSpec : Spec (List (String × String)) where
     | ["del", k] => (s.filter (·.1 != k), "ok")
     | ["get", k] => (s, match s.find? (·.1 == k) with | some (_, v) => v | none => "notfound")
     | "cfg" :: _ => (s, "ok")
+    | ["query"] =>
+      -- every entry carries the queried tag: the keys present, sorted
+      let ks := Util.sortStrings (s.map (·.1))
+      (s, if ks.isEmpty then "-" else "+".intercalate ks)
     | _ => (s, "?")
 
 /-- key manager ids: import id (refused when taken) | get id -/
@@ -88,6 +93,7 @@ def pickupSpec : Spec (List String) where
       let k := min (n.toNat?.getD 0) s.length
       let out := s.take k
       (s.drop k, if out.isEmpty then "-" else "+".intercalate out)
+    | ["pickf", _] => (s, "fail")     -- the delivery fails: nothing leaves the inbox
     | _ => (s, "?")
 
 end Lin
